@@ -172,6 +172,16 @@ def gen_raw(seed, tier):
                 a = rnd.randrange(burst + 1)
                 sched += [a] * (rnd.choice([1, 2, 5, 40, 129]) if a == cons else rnd.randint(1, 12))
         scen.append(Scenario('raw_burst', [S1, S2], acts, script, sched, exraw=1))
+    # add_signal of a signal that is being delivered (another registration of it exists in the process, so
+    # the delivery is harmless either way): every split point of the adder against the delivery, both orders;
+    # from the instant the instance's action runs for a delivery, that delivery must come out as a record
+    acts = [(4, S2, 0), dl(S2, 1), dl(S2, 2), CONS]
+    script = [W, D(0), P, D(1)]
+    pts = range(0, 70 if tier == 'quick' else 140)
+    for i in pts:
+        scen.append(Scenario('raw_add_vs_deliver', [S1], acts, script, [0] * i + [1] * 80 + [0] * 200 + [2] * 80 + [3] * LONG, exraw=1))
+    for i in range(0, 30):
+        scen.append(Scenario('raw_add_vs_deliver', [S1], acts, script, [1] * i + [0] * 200 + [1] * 80 + [2] * 80 + [3] * LONG, exraw=1))
     return scen
 
 
@@ -303,10 +313,38 @@ def replay_state(s, r, upto):
     return slot, pipe, set(mid.values()), closed
 
 
+def mon_c09_raw(s, r):
+    """WithRawSiginfo: a delivery for which an action of this instance ran (it wrote the wake-up byte of the
+    instance) is reported as a record once the consumer has drained everything - unless more than the buffer
+    holds were delivered for that signal (C06 allows the discard) or the instance was closed"""
+    viol = []
+    tr = r['trace']
+    if not (r.get('drained') and all(r['finished'])) or any(l[1] == 1 and l[2] == 1 for l in tr):
+        return viol
+    begun, woke = {}, set()
+    for idx, (a, op, loc, arg, res, ok) in enumerate(tr):
+        if op == 20 and res >= 0:
+            begun[a] = (arg, res, idx)
+        elif op == 15 and arg == 1:
+            woke.add(a)
+    per_sig = {}
+    for a, (g, mk, idx) in begun.items():
+        per_sig[g] = per_sig.get(g, 0) + 1
+    got = set()
+    for idx, a, v in yields_of(s, r) + [(len(tr), -1, v) for v in r.get('final', [])]:
+        if v >= 0:
+            got.add((v // 1000000, v % 1000000))
+    for a, (g, mk, idx) in sorted(begun.items()):
+        if a in woke and per_sig[g] <= 5 and (g, mk) not in got:
+            viol.append(('lost-record', idx, 'the delivery of signal %d (marker %d) ran this instance\'s action (its wake-up byte was written) but no record of it '
+                         'ever came out, although the consumer drained everything afterwards' % (g, mk)))
+    return viol
+
+
 def mon_c09(s, r):
     viol = []
     if s.exraw:
-        return viol
+        return mon_c09_raw(s, r)
     cons = s.consumer()
     tr = r['trace']
     # one pass: slots set, handlers between store and wake, batches handed out / exhausted
@@ -400,7 +438,8 @@ def mon_c10(s, r):
         first_cons = min([i for i, l in enumerate(tr) if l[0] == cons and l[1] in STEP_OPS] + [10 ** 9])
         if r.get('drained') and all(r['finished']):
             for g, mks in delivered.items():
-                if all(ended.get((g, m), 10 ** 9) < first_cons for m in mks):
+                # (signals watched from the start only: a delivery that precedes the add_signal of its signal is none of this instance's)
+                if g in s.setup and all(ended.get((g, m), 10 ** 9) < first_cons for m in mks):
                     seq = sorted(mks, key=lambda m: started[(g, m)])
                     if order.get(g, []) != seq[:5]:
                         viol.append(('burst', -1, 'burst of %d deliveries of signal %d (markers %s) before the consumer started: yielded %s, expected the first 5 in order' % (len(mks), g, seq, order.get(g, []))))
